@@ -436,3 +436,78 @@ Theorem payload_merge_order_irrelevant : forall (ps ps' : list pprofile) (st st'
   eqm (ProfRewrite.weight P k (merged_profile st)) (ProfRewrite.weight P k (merged_profile st')).
 Proof. exact ProfRewriteProofs.payload_merge_order_irrelevant. Qed.
 Print Assumptions payload_merge_order_irrelevant.
+
+(* ---- the exact class of node-id collisions, acyclicity of stored trees, int64 overflow (proofs/ProfCycleProofs.v) *)
+From Qryn Require Import proofs.ProfCycleProofs.
+
+(* node_id_eq_iff / collision_class.  getNodeId hashes (parent id, function id) and carries min(depth, 511) in 9 bits: two
+   frames get one node id exactly when their clamped levels agree and the upper 55 bits of the two 64-bit hashes agree.  The
+   hypothesis of tree_conserves (parent_determined) fails exactly when two occurring frames of this kind have different
+   parents -- the class of the recorded findings node-id-collision-in-profile / -across-profiles (a client can construct a
+   member in about 2^28 hash evaluations: harness/cmd/profcollide, 2 s); outside the class everything holds
+   (tree_conserves, flamegraph_nests_from_ingest, diff_nests_from_ingest). *)
+Theorem node_id_eq_iff : forall (h : N -> N -> N) (p f d p' f' d' : N),
+  node_id h p f d = node_id h p' f' d' <->
+  N.min d depth_clamp = N.min d' depth_clamp /\ hash_bits h p f = hash_bits h p' f'.
+Proof. exact ProfCycleProofs.node_id_eq_iff. Qed.
+Print Assumptions node_id_eq_iff.
+
+Theorem collision_class : forall (h : N -> N -> N) (T : list (N * N * N)),
+  ~ parent_determined h T <->
+  exists p f d p' f' d', In (p, f, d) T /\ In (p', f', d') T /\ p <> p' /\
+    N.min d depth_clamp = N.min d' depth_clamp /\ hash_bits h p f = hash_bits h p' f'.
+Proof. exact ProfCycleProofs.collision_class. Qed.
+Print Assumptions collision_class.
+
+(* stored_rows_acyclic.  computeFlameGraphDiff has no guard against a cyclic Nodes map (BFS has one).  For EVERY hash --
+   collisions included -- and every depth: the rows of one stored tree have a rank (the position in insertion order) that
+   strictly decreases from every row to the row it names as parent.  No stored tree holds a cycle, not even a self loop. *)
+Theorem stored_rows_acyclic : forall (h : N -> N -> N) (na : N) (nt : nat) (ss : list sample),
+  let t := stored_tree h na nt ss in
+  forall n, In n t -> n_parent n <> 0%N -> (pos_of (n_parent n) t < pos_of (n_id n) t)%nat.
+Proof. exact stored_rows_rank. Qed.
+Print Assumptions stored_rows_acyclic.
+
+(* merged_cycle_only_at_clamp.  Across profiles, for EVERY hash: a stored row's level field is min(level of its parent + 1,
+   511) (stored_rows_levels), so along any chain of rows taken from any stored trees the level reaches at least
+   min(level of the start + 1, 511).  A cycle in a merged tree therefore consists of ids of level 511 only: it needs rows
+   whose parent already sits at depth >= 511, from at least two profiles (one stored tree is acyclic), chained by
+   collisions of the 55 hash bits (a self loop or a 2-cycle has probability 2^-55 per attempt and no birthday short cut;
+   not constructed).  Profiles whose stacks have at most 511 frames never put a row on a cycle (shallow_rows_below_clamp +
+   no_cycle_through_row_below_clamp). *)
+Theorem stored_rows_levels : forall (h : N -> N -> N) (na : N) (nt : nat) (ss : list sample) (n : node),
+  In n (stored_tree h na nt ss) -> level_of (n_id n) = N.min (level_of (n_parent n) + 1) depth_clamp.
+Proof. exact ProfCycleProofs.stored_rows_levels. Qed.
+Print Assumptions stored_rows_levels.
+
+Theorem merged_cycle_only_at_clamp : forall (rs : list node) (x : N),
+  (forall r, In r rs -> level_of (n_id r) = N.min (level_of (n_parent r) + 1) depth_clamp) ->
+  rs <> [] -> chain x rs x -> (depth_clamp <= level_of x)%N.
+Proof. exact cycle_only_at_clamp. Qed.
+Print Assumptions merged_cycle_only_at_clamp.
+
+Theorem shallow_profiles_never_on_a_cycle : forall (h : N -> N -> N) (na : N) (nt : nat) (ss : list sample),
+  (forall s, In s ss -> (length (s_stack s) <= 511)%nat) ->
+  forall (rs : list node) (r : node) (rest : list node) (x : N),
+    (forall q, In q rs -> level_of (n_id q) = N.min (level_of (n_parent q) + 1) depth_clamp) ->
+    rs = r :: rest -> In r (stored_tree h na nt ss) -> ~ chain x rs x.
+Proof. exact ProfCycleProofs.shallow_profiles_never_on_a_cycle. Qed.
+Print Assumptions shallow_profiles_never_on_a_cycle.
+
+(* int64 overflow.  All stored and merged numbers are int64 sums that wrap silently (the equalities of this file are modulo
+   2^64; the check replays wrapping profiles on the real code every run: classes with values >= 2^62).  The bound on the
+   input under which the flame-graph total of a profile IS the sum of its sample values, for every hash: the absolute values
+   of the selected sample type add up to less than 2^63 (for the merged, nested flame graph: flamegraph_nests_from_ingest
+   states the bound sum of value x depth < 2^63 over everything read).  One step beyond the bound -- two samples of 2^62 --
+   the total is -2^63. *)
+Theorem root_total_exact : forall (h : N -> N -> N) (na : N) (nt : nat) (ss : list sample) (k : nat),
+  (k < nt)%nat -> abs_weight k ss < two63 ->
+  wrap64 (child_tot k (stored_tree h na nt ss) 0%N) = full_weight k ss.
+Proof. exact ProfCycleProofs.root_total_exact. Qed.
+Print Assumptions root_total_exact.
+
+Theorem root_total_wraps_beyond_bound : forall (h : N -> N -> N) (na : N),
+  abs_weight 0 overflow_profile = two63 /\ full_weight 0 overflow_profile = two63 /\
+  wrap64 (child_tot 0 (stored_tree h na 1 overflow_profile) 0%N) = - two63.
+Proof. exact ProfCycleProofs.root_total_wraps_beyond_bound. Qed.
+Print Assumptions root_total_wraps_beyond_bound.
